@@ -31,6 +31,8 @@ def run():
         E.replay_dump("C05", dump4, res, stride=7)
         res.coverage["traces_validated_against_impl"] = res.coverage.get("law_pairs", 0)
         dump4.unlink()
+    E.deep_law_pairs(res, 1500 if thorough else 150)
+    res.coverage["traces_validated_against_impl"] = res.coverage.get("law_pairs", 0)
     res.coverage["exhaustive"] = True
     res.coverage["rule"] = ("one case = (valid expression, assignment, law instance): hint and-ed left/right onto the root or any operand of "
                             "U/O/X, FC attached left/right to any sub-expression containing an RC, operands of any U/O/X swapped, redundant "
